@@ -498,6 +498,11 @@ func shortCircuitNonNil(f *eng.Fn, n ast.Node, v *types.Var) bool {
 		return found
 	}
 	var child ast.Node = n
+	pt, havePt := g.Where(n)
+	var forms []string
+	if havePt {
+		forms = g.VarForms(v)
+	}
 	for par := g.Parent(n); par != nil; par = g.Parent(par) {
 		if be, ok := par.(*ast.BinaryExpr); ok && be.Y == child {
 			if be.Op == token.LOR && isNilTest(be.X, token.EQL) {
@@ -505,6 +510,17 @@ func shortCircuitNonNil(f *eng.Fn, n ast.Node, v *types.Var) bool {
 			}
 			if be.Op == token.LAND && isNilTest(be.X, token.NEQ) {
 				return true
+			}
+			// any other spelling of the left operand (negations, nested
+			// connectives): what its outcome implies when the right operand runs
+			if havePt && (be.Op == token.LOR || be.Op == token.LAND) {
+				for _, a := range g.Formula(be.X, be.Op == token.LAND, pt).Implied() {
+					for _, fm := range forms {
+						if a.S == "!eq("+fm+",nil)" {
+							return true
+						}
+					}
+				}
 			}
 		}
 		if _, ok := par.(ast.Stmt); ok {
